@@ -73,6 +73,19 @@ def sql_case(args):
                     q[name] = None
                     continue
                 q[name] = [tuple(canon(c) for c in row) for row in r["rows"]]
+            # the storage sort order: a table keyed by the column keeps its rows in key order on disk (memtable
+            # sort, ordered merge of row-sets) and the optimizer then drops the ORDER BY - the sequence must be the
+            # one a real sort gives
+            nonnull = [v for v in vals if v != "NULL"]
+            q["pk_order"] = None
+            if nonnull and rl.sql(f"create table tp(a {typ} primary key)")["ok"]:
+                okp = True
+                for i in range(0, len(nonnull), k):
+                    okp = okp and rl.sql("insert into tp values " + ", ".join(f"({v})" for v in nonnull[i:i + k]))["ok"]
+                r = rl.sql("select a from tp order by a") if okp else {"ok": False}
+                res["evals"] += 1
+                if r["ok"]:
+                    q["pk_order"] = [canon(row[0]) for row in r["rows"]]
             tag = f"{typ} {engine} values {vals}"
             S = q["order"]
             if S is None:
@@ -103,6 +116,10 @@ def sql_case(args):
                 want = sorted((a, b) for a in nn for b in nn if a == b)
                 if sorted(q["eq"]) != want:
                     res["violations"].append(dict(signature=f"join-equality-vs-identity:{typ}", what=f"self equi-join pairs {sorted(set(q['eq']))[:6]} vs equal cells {sorted(set(want))[:6]} [{tag}]"))
+            if q["pk_order"] is not None and q["pk_order"] != nn:
+                res["violations"].append(dict(signature=f"primary-key-order-vs-order-by:{typ}", what=f"[{engine}] ORDER BY on the key of a keyed table gives {q['pk_order'][:8]}, sorting the same values gives {nn[:8]} [{tag}]"))
+            if q["pk_order"] is not None:
+                res["pk_judged"] = res.get("pk_judged", 0) + 1
             if q.get("in") is not None and sorted(x[0] for x in q["in"]) != sorted(nn):
                 res["violations"].append(dict(signature=f"in-subquery-vs-identity:{typ}", what=f"a IN (select a) returned {sorted(x[0] for x in q['in'])[:8]} for non-NULL values {sorted(nn)[:8]} [{tag}]"))
             if q["group"] is not None:
@@ -145,6 +162,7 @@ def run(tier, seed):
         rep.inc(f"value leg: {type(e).__name__}: {e}"[:80])
         ntypes = 0
     by_type = {}
+    pk_judged = {}
     cases = set()
     for res in parallel_map(sql_case, [(seed, i) for i in range(nsql)]):
         rep.evaluations += res["evals"]
@@ -152,12 +170,14 @@ def run(tier, seed):
             rep.inc(res["typ"] + ": " + res["inconclusive"][:40])
             continue
         by_type[res["typ"]] = by_type.get(res["typ"], 0) + 1
+        pk_judged[res["typ"]] = pk_judged.get(res["typ"], 0) + res.get("pk_judged", 0)
         cases.add(res["distinct"])
         rep.sample(dict(type=res["typ"]), limit=2)
         for v in res["violations"]:
             rep.add_violation(Violation(v["signature"], v["what"], res["witness"]))
     rep.distinct = len(cases) + ntypes
-    rep.coverage.update(sql_cases_per_type=by_type)
+    rep.coverage.update(sql_cases_per_type=by_type, keyed_table_storage_orders_judged_per_type=pk_judged)
+    rep.floor("keyed-table storage orders judged", sum(pk_judged.values()), nsql // 2)
     rep.floor("SQL coherence cases", len(cases), nsql // 2)
     rep.assumptions = ["calendar values are drawn from ranges reachable through SQL literals (timestamps in whole seconds)",
                        "cells are compared as printed; decimals are normalised by value and -0.0 is identified with 0.0, as the engine's equality does"]
